@@ -1148,6 +1148,12 @@ func genConfig(t *rapid.T, fk kind, ftyp string) ([]pat, []bool) {
 		// neither collides with the normal patterns nor is ever chosen
 		addMask(kMsg, "", drawMask("emptyTypeBit", true))
 	}
+	if fk == kIQ && rapid.IntRange(0, 3).Draw(t, "emptyTypeIQPatterns") == 0 {
+		// IQ patterns registered with the empty type (the package's own tests
+		// register such handlers): no IQ has that type, so they are patterns of
+		// another type than the element's own and are never chosen
+		addMask(kIQ, "", drawMask("emptyTypeIQBit", true))
+	}
 	nd := rapid.IntRange(0, 3).Draw(t, "distractors")
 	seen := map[string]bool{fmt.Sprint(fk, ftyp): true}
 	for i := 0; i < nd; i++ {
